@@ -25,6 +25,7 @@ RULE = (
     "codecs declared by a PEP 263 cookie on line 1 or 2, or undeclared UTF-8 with/without BOM x {LF, CRLF, CR} x "
     "with/without final newline; inner loop: every line as the edited one; non-trivial = a non-ASCII character and "
     "(codec != utf-8 or newline != LF or no final newline); distinct by case hash"
+    "; plus the newline convention converted outside rope between two uses of the same File object; nine cookie spellings (incl. `encoding:` / `fileencoding=` and a form feed before or as the line above the cookie)"
 )
 ASSUMPTIONS = [
     "UTF-16/32 and other non-ASCII-compatible codecs are not valid Python source encodings and are outside the domain",
